@@ -4,6 +4,7 @@
    `<> Panic`, for EVERY byte list.  Termination is by construction (structural recursion). *)
 From Coq Require Import NArith ZArith List Bool.
 Require Import Board Move GameOver PtnMove Playtak Tps TotalFacts PtnFile PtnFileTotalThm Tei TeiTotal.
+Require Bot BotLine BotLineFacts.
 
 Theorem C13_parse_move_total : forall s : list N, PtnMove.parse_move s <> PtnMove.Panic.
 Proof. exact parse_move_total. Qed.
@@ -40,6 +41,38 @@ Theorem C13_tei_run_total : forall (basis : list N) (SS : Type) (mk_searcher : Z
 Proof. exact TeiTotal.tei_run_bytes_total. Qed.
 Print Assumptions C13_tei_run_total.
 
-(* Not theorems: the chat-line parsers and Weights.UnmarshalJSON are thin wrappers around regexp / encoding/json,
-   which are trusted to be total; these two entry points are decided by the crash/hang oracle only.  "Bounded time"
-   is by construction for the Gallina models (structural recursion); for the Go code it is checked by a deadline. *)
+(* The chat lines: ParseTell / ParseShout / ParseShoutRoom of playtak/client.go, i.e. FindStringSubmatch of
+     `^Tell <([^> ]+)> (.+)$`   `^Shout <([^> ]+)> (.+)$`   `^ShoutRoom (\S+) <([^> ]+)> (.+)$`
+   modelled in BotLine.v as direct functions from byte lists to pairs / triples of byte lists: their result types have no Panic
+   constructor and they are structurally recursive, so totality ("returns for EVERY byte list, never panics") holds by
+   construction; what is PROVED is their specification, for every byte list l:
+     BotLineFacts.tell_line l w m  :=  l = "Tell <" ++ w ++ "> " ++ m,  w non-empty without '>' (62) and ' ' (32) - it MAY contain
+                                       "\n" -,  m non-empty without "\n" (10)
+     BotLineFacts.shout_line l w m :=  the same behind "Shout <"
+     BotLineFacts.room_line l r w m := l = "ShoutRoom " ++ r ++ " <" ++ w ++ "> " ++ m,  r non-empty without \t \n \f \r ' ',
+                                       w and m as above
+   - if l is in the language the parser returns exactly that split, otherwise empty strings;
+   - the split is unique (the name cannot contain '>' or ' ', so the first "> " decides: "Tell <a> <b> c" is who = "a",
+     msg = "<b> c"; a room may contain '<': "ShoutRoom a<b <c> d");
+   - the direct functions equal BotLine.re_tell / re_shout / re_shout_room: an ordered backtracking search (first successful
+     branch wins, longer repetitions first = Go's leftmost-first semantics with greedy +) over the three patterns.
+   The correspondence with the real regexp package is by execution (family C of the check: all short strings behind the
+   literal prefixes, real lines and their mutations; L1 = the returned strings). *)
+Theorem C13_chat_total :
+  (forall l, (exists w m, BotLineFacts.tell_line l w m /\ BotLine.parse_tell l = (w, m)) \/
+             ((forall w m, ~ BotLineFacts.tell_line l w m) /\ BotLine.parse_tell l = (nil, nil))) /\
+  (forall l w m w' m', BotLineFacts.tell_line l w m -> BotLineFacts.tell_line l w' m' -> w = w' /\ m = m') /\
+  (forall l, (exists w m, BotLineFacts.shout_line l w m /\ BotLine.parse_shout l = (w, m)) \/
+             ((forall w m, ~ BotLineFacts.shout_line l w m) /\ BotLine.parse_shout l = (nil, nil))) /\
+  (forall l w m w' m', BotLineFacts.shout_line l w m -> BotLineFacts.shout_line l w' m' -> w = w' /\ m = m') /\
+  (forall l, (exists r w m, BotLineFacts.room_line l r w m /\ BotLine.parse_shout_room l = (r, w, m)) \/
+             ((forall r w m, ~ BotLineFacts.room_line l r w m) /\ BotLine.parse_shout_room l = (nil, nil, nil))) /\
+  (forall l r w m r' w' m', BotLineFacts.room_line l r w m -> BotLineFacts.room_line l r' w' m' -> r = r' /\ w = w' /\ m = m') /\
+  (forall l, BotLine.re_tell l = BotLine.parse_tell l /\ BotLine.re_shout l = BotLine.parse_shout l /\
+             BotLine.re_shout_room l = BotLine.parse_shout_room l).
+Proof. exact BotLineFacts.chat_total. Qed.
+Print Assumptions C13_chat_total.
+
+(* Not a theorem: Weights.UnmarshalJSON is a thin wrapper around encoding/json, which is trusted to be total; that entry point is
+   decided by the crash/hang oracle only.  "Bounded time" is by construction for the Gallina models (structural recursion); for
+   the Go code it is checked by a deadline. *)
